@@ -75,7 +75,7 @@ def generate(rng, tier, index):
         nb = rng.randrange(1, 4)
         sc["idx2bucket"] = [rng.randrange(nb) for _ in range(n)]
         sc["bucket2size"] = [rng.randrange(1, 5) for _ in range(nb)]
-        sc["bucket_names"] = rng.choice(["int", "str"])
+        sc["bucket_names"] = rng.choice(["int", "str", "neg", "tuple"])
     ops = []
     for _ in range(rng.randrange(2, 7)):
         r = rng.randrange(W)
@@ -203,7 +203,9 @@ class Bare:
             self.sampler = data.EpochRandomSampler(range(n), init_epoch, sc["seed"], mode)
         else:
             self.sampler = data.EpochSequentialSampler(range(n), init_epoch, mode)
-        name = (lambda b: b) if sc["bucket_names"] == "int" else (lambda b: f"b{b}")
+        # any hashable, mutually orderable ids: ints, strings, negative ints (hash(-1) == hash(-2) in
+        # CPython), tuples
+        name = {"int": (lambda b: b), "str": (lambda b: f"b{b}"), "neg": (lambda b: -1 - b), "tuple": (lambda b: (-1 - b, "x"))}[sc["bucket_names"]]
         self.idx2bucket = {i: name(b) for i, b in enumerate(sc["idx2bucket"])}
         self.bucket2size = {name(b): s for b, s in enumerate(sc["bucket2size"])}
         self.batch_sampler = data.BucketBatchSampler(self.sampler, self.idx2bucket, self.bucket2size, sc["drop_last"])
@@ -574,7 +576,11 @@ def execute(sc):
                     ctx = f"{kind} rank {r}/{W} epoch {e}"
                     order = [int(i) for i in ld.batch_sampler.sampler.get_samples_for_epoch(e)]
                     if kind == "bare":
-                        batches = [list(map(int, b)) for b in ld.batch_sampler]
+                        try:
+                            batches = [list(map(int, b)) for b in ld.batch_sampler]
+                        except Exception as err:  # noqa
+                            res.violate("deliver.raised", f"{ctx}: BucketBatchSampler raised {type(err).__name__}: {err}", exc=type(err).__name__, kind=kind)
+                            return res
                         idx_batches = batches
                         digest = hashlib.sha256(repr(batches).encode()).hexdigest()[:16]
                     else:
